@@ -55,16 +55,16 @@ ROW = ["row", "row.v", "row.cas", "row.exp", "row.json", "row.x", "row.tomb", "r
 PROPS = {
     "C01": dict(modules=["Rosmar.Properties.C01", "Rosmar.Gen.TieSqlAdd", "Rosmar.Gen.TieSqlSet", "Rosmar.Gen.TieSqlWcas", "Rosmar.Gen.TieSqlRemove", "Rosmar.Gen.TieSqlTouch", "Rosmar.Gen.TieSqlXattr", "Rosmar.Gen.TieSqlReadPins"], slices=[KV, KVD, MULTI], proj=V.proj_all,
                 what="every read after every operation (raw row + every public read), every result"),
-    "C02": dict(modules=["Rosmar.Properties.C02", "Rosmar.Gen.TieSqlWcas", "Rosmar.Gen.TieSqlRemove", "Rosmar.Gen.TieSqlXattr"], slices=[KV, KVD, SUBDOC],
+    "C02": dict(modules=["Rosmar.Properties.C02", "Rosmar.Gen.TieSqlWcas", "Rosmar.Gen.TieSqlRemove", "Rosmar.Gen.TieSqlXattr", "Rosmar.Gen.TieSqlProps"], slices=[KV, KVD, SUBDOC],
                 proj=P(rb=ROW, results=True, ops={"wcas", "remove", "wwx", "wtx", "updx", "rmx", "uxdb", "swm", "dwm", "update", "wuwx"}),
                 what="results of CAS-conditional writes and the row before/after"),
     "C04": dict(modules=["Rosmar.Properties.C04", "Rosmar.Gen.TiePure"], slices=[CLOCK, CLOCKD, KV, COLLS, COLLSD],
                 proj=P(rb=["row", "row.cas"], results=True, ops={"draw", "restart", "lastcas", "wcas", "remove", "touch", "setx", "updx", "wwx", "wtx", "wrx", "uxdb", "update", "wuwx"}),
                 what="every CAS handed out under adversarial clock scripts, draws by other buckets, close/reopen with a forgetful clock"),
-    "C05": dict(modules=["Rosmar.Properties.C05", "Rosmar.Gen.TieSqlAdd", "Rosmar.Gen.TieSqlSet", "Rosmar.Gen.TieSqlWcas", "Rosmar.Gen.TieSqlRemove", "Rosmar.Gen.TieSqlXattr", "Rosmar.Gen.TieSqlPurge"], slices=[KV, FEEDS, MULTI],
+    "C05": dict(modules=["Rosmar.Properties.C05", "Rosmar.Gen.TieSqlAdd", "Rosmar.Gen.TieSqlSet", "Rosmar.Gen.TieSqlWcas", "Rosmar.Gen.TieSqlRemove", "Rosmar.Gen.TieSqlXattr", "Rosmar.Gen.TieSqlPurge", "Rosmar.Gen.TieSqlProps"], slices=[KV, FEEDS, MULTI],
                 proj=P(rb=["row", "row.v", "row.tomb", "row.x", "row.exp", "gr", "ex", "gwx"], ev=["k", "op", "cas"], results=True),
                 what="tombstone flag, body, xattrs, expiry, reads, feed opcodes"),
-    "C06": dict(modules=["Rosmar.Properties.C06", "Rosmar.Gen.TieSqlAdd", "Rosmar.Gen.TieSqlWcas", "Rosmar.Gen.TieSqlXattr"], slices=[KV, KVD],
+    "C06": dict(modules=["Rosmar.Properties.C06", "Rosmar.Gen.TieSqlAdd", "Rosmar.Gen.TieSqlWcas", "Rosmar.Gen.TieSqlXattr", "Rosmar.Gen.TieSqlProps"], slices=[KV, KVD],
                 proj=P(rb=ROW, results=True, ops={"add", "wcas", "wrx", "wwx"}),
                 what="results of insert-style writes and the row before/after"),
     "C07": dict(modules=["Rosmar.Properties.C07", "Rosmar.Gen.TieSqlSet", "Rosmar.Gen.TieSqlWcas", "Rosmar.Gen.TieSqlRemove", "Rosmar.Gen.TieSqlXattr"], slices=[KV, KVD],
